@@ -113,6 +113,26 @@ EXTRA3 = {
 for _k, _v in EXTRA3.items():
     EXTRA[_k] = EXTRA.get(_k, "") + _v
 
+EXTRA4 = {
+ "C01": " Also: identity compares URL fields exactly; a refused server option stores nothing.",
+ "C02": " Also: no failing return once the rebalancer recorded a server; default weight only for new records; options are atomic.",
+ "C03": " Also: renewing a tracked key always re-arms its deadline; no constant cap on the entry lifetime.",
+ "C05": " Also: locks are taken in one order; side-effect hooks run in their own goroutine.",
+ "C06": " Also: utils.CopyURL copies every field.",
+ "C07": " Also: the recorder keeps the last status written.",
+ "C08": " Also: the Director does not rewrite Connection; the request dump does not fill req.Form.",
+ "C09": " Also: lock order is acyclic per object; no atomic Load-compute-Store on one word; state pointers handed to handlers are reads at the call.",
+ "C12": " Also: the request that opens the recovery is decided by the ramp controller.",
+ "C13": " Also: the returned delay derives from the buckets' results only; nothing handed to the error handler after unlocking is shared limiter state.",
+ "C14": " Also: NewTTLMap stores its capacity argument uncapped.",
+ "C17": " Also: bucket writes are zeroing or += parameter.",
+ "C18": " Also: ResponseCodeRatio ranges are half-open; the recording writer records the last status.",
+ "C19": " Also: client.ip refuses an empty host.",
+ "C20": " Also: ProxyWriter constructors wrap the writer they are given.",
+}
+for _k, _v in EXTRA4.items():
+    EXTRA[_k] = EXTRA.get(_k, "") + _v
+
 NA = {}
 
 def main():
